@@ -57,12 +57,15 @@ CHECKS["C16"] = dict(
           "(covering any corruption in either direction), a returned value is the decoding of labels that are each one of the "
           "wire's two labels, so a wrong value implies some received label equals the honest label xor the secret offset; "
           "unknown labels and wrong gate counts take error branches. The decision logic is tied to the real circuit.Garbler "
-          "by driving it with a scripted evaluator; structural facts pin BitFromLabel as the only path to result bits. "
-          "Fault enumeration (bit flips, byte sets, 16-byte bursts at byte positions of both directions of sessions with CO / "
-          "COT / COT-malicious on the wire) requires outcome error|stalled|crash|ok(correct). Partial: authenticity of the "
+          "by driving it with a scripted evaluator; a call-sequence fact (helpers inlined) shows result bits are set only after "
+          "BitFromLabel, whose Go source is translated to Lean on every run and proved equal to the model's bitFrom (T1 tie). "
+          "Fault enumeration (bit flips, byte sets, 16-byte bursts at byte positions of both directions of whole-circuit and "
+          "streaming sessions with CO / COT / COT-malicious on the wire; the streaming return-id region bit by bit; the select-bit "
+          "corner flips of EVERY returned output label, all 128 bits per label in the thorough tier) requires outcome "
+          "error|stalled|crash|ok(correct). Partial: authenticity of the "
           "garbling scheme itself is cryptographic, covered by the enumeration, not by a theorem."),
-    note=TB + "Streaming sessions: result-loop decision logic shared (pinned by a structural fact) and included in the fault "
-              "enumeration.")
+    note=TB + "Streaming sessions: the result-loop decision logic is the shared decodeLabels (source-text expectation advisory only) and "
+              "is included in the fault enumeration.")
 
 CHECKS["C17"] = dict(
     category="proof", design_ref="DESIGN.md section 2 / C17",
@@ -135,9 +138,13 @@ CHECKS["C04"] = dict(
           "the secret offset R and 0 on every label of the evaluator's view (all table rows, garbler input labels, OT-chosen "
           "labels): R is not transmitted, no two transmitted values differ by R, no XOR-combination yields R. "
           "C04_tweak_reuse_leaks proves (in any algebra) that reusing a tweak across AND gates sharing an input leaks R - "
-          "the pre-fix streaming mode (repaired by fix 956e0fd; a structural fact pins the single tweak counter). "
-          "C04_both_labels_leak: sha2pc's OutputHints (known finding). Oracle on the real code: every 16-byte window at "
-          "every byte offset of the complete garbler->evaluator stream of whole-circuit, streaming and sha2pc sessions."),
+          "the pre-fix streaming mode (repaired by fix 956e0fd; long streamed programs in the oracle decide, source-text "
+          "expectations about the counter are advisory). C04_ot_range_guard / C04_ot_range_unguarded_leaks: a DEVIATING evaluator's "
+          "OT request is accepted only for its own wires, and then its view is the honest view for its choice bits; serving a "
+          "request that reaches into the garbler's wires would hand over two labels of a wire. C04_both_labels_leak: sha2pc's "
+          "OutputHints (known finding). Oracle on the real code: every 16-byte window at every byte offset of the complete "
+          "garbler->evaluator stream of whole-circuit, streaming and sha2pc sessions; the offset is random (weight, select bit, never "
+          "repeated); the real Garbler against a scripted evaluator sending deviating OT requests (verdicts = Lean guard)."),
     note=TB + "Symbolic model: no computational secrecy claim; stated for every hash model `code` separating x from x xor R; "
               "OT ideal in the model (its own messages are only scanned by the oracle); streaming covered by the tweak-uniqueness "
               "fact + whole-list theorem (instruction boundaries are not modelled separately).")
@@ -176,14 +183,19 @@ CHECKS["C07"] = dict(
     text=("Proved exact for ALL operand and result widths (toNat z = f(toNat x, toNat y) mod 2^|z|, exact width guards, "
           "bridged to C01's plain evaluator): ripple and Kogge-Stone adders/subtractors (prefix-network invariant; witnesses that "
           "one stage fewer is wrong), array multiplier (row invariant), Karatsuba for every threshold >= 3, Wallace tree + final "
-          "adder (column-sum invariant, termination within fuel), NewMultiplier on both targets, long divider udiv/umod (restoring "
-          "invariant, non-zero divisor, result width <= operand width), signed divider and modulo and signed comparators for equal "
-          "operand widths, unsigned comparators, Eq/Neq, MUX, bitwise, logical, bit tests, array index, Hamming (both targets); "
-          "negation witnesses where the code is wrong. The Lean generators reproduce the real builders' gate lists gate for gate on "
-          "thousands of width triples per run (so a theorem about the generator is a theorem about that Go output). Oracle: real "
-          "builder -> Compile -> Compute vs math/big, exhaustive up to 8 bits (thorough), boundary-biased to 130 bits, both targets."),
-    note=TB + "Partial overall: the Goldschmidt divider (GMW target; known inexact), the restoring/array divider variants and `Compile` "
-              "itself are validated by evaluation only; signed builders on unequal operand widths are known findings re-derived on every run.")
+          "adder (column-sum invariant, termination within fuel), NewMultiplier on both targets, long divider udiv/umod for every "
+          "result width (restoring invariant, non-zero divisor; zero-fill of cf9e510), signed divider/modulo and signed comparators "
+          "exactly on the zero-padded operands the code uses (full for equal operand widths; C07_*_unequal_wrong witnesses for the "
+          "open zero-extension findings; conditional theorems C07_*_signpad about the withdrawn repair), unsigned comparators, "
+          "Eq/Neq, MUX, bitwise, logical, bit tests, array index, Hamming (both targets). Goldschmidt divider (GMW): "
+          "C07_goldschmidt_correction proves the repaired correction step (776d360) exact for every width under the explicit "
+          "hypothesis |estimate - a/b| <= 1, C07_goldschmidt_correction_old_wrong that the truncated version fails under it. The "
+          "Lean generators reproduce the real builders' gate lists gate for gate on thousands of width triples per run. Oracle: "
+          "real builder -> Compile -> Compute vs math/big, exhaustive up to 8 bits (thorough), boundary-biased to 130 bits."),
+    note=TB + "Partial overall: the Goldschmidt estimate bound is a VALIDATED hypothesis (goldschmidt-estimate-within-one: all operand "
+              "pairs for widths <= 9 (quick) / <= 11 (thorough) plus structured pairs up to 64 bits on every run), not a theorem; the "
+              "restoring/array divider variants and `Compile` itself are validated by evaluation only; signed builders on unequal "
+              "operand widths are open known findings (builder-level repair withdrawn as unsafe, see DESIGN.md section 6).")
 
 CHECKS["C05"] = dict(
     category="translation_validation", design_ref="DESIGN.md section 2 / C05",
